@@ -119,12 +119,13 @@ fn crc_zeros(mut n: u64) -> u32 {
 }
 
 /// `sizes`: entry sizes (all-zero stored content), `large`: per entry, `count`: extra empty directories.
-fn big_scenario(sizes: &[u64], large: &[bool], dirs: u64, comment: &[u8]) -> String {
+fn big_scenario(sizes: &[u64], large: &[bool], dirs: u64, comment: &[u8], method: u16) -> String {
     let r = catch({
         let (sizes, large, comment) = (sizes.to_vec(), large.to_vec(), comment.to_vec());
         move || -> Result<String, String> {
             let mut w = zip::ZipWriter::new(Sparse::new());
-            let o = zip::write::FileOptions::default().compression_method(zip::CompressionMethod::Stored).last_modified_time(zip::DateTime::default());
+            #[allow(deprecated)]
+            let o = zip::write::FileOptions::default().compression_method(zip::CompressionMethod::from_u16(method)).last_modified_time(zip::DateTime::default());
             let mut expect_ok = true;
             for (i, (&sz, &lg)) in sizes.iter().zip(large.iter()).enumerate() {
                 w.start_file(format!("f{i}"), o.large_file(lg)).map_err(|e| format!("start:{}", zerr_class(&e)))?;
@@ -145,7 +146,7 @@ fn big_scenario(sizes: &[u64], large: &[bool], dirs: u64, comment: &[u8]) -> Str
             if a.comment() != &comment[..] { return Err("comment differs".into()); }
             for (i, &sz) in sizes.iter().enumerate() {
                 let mut f = a.by_index(i).map_err(|e| format!("entry {i}: {}", zerr_class(&e)))?;
-                if f.size() != sz || f.compressed_size() != sz { return Err(format!("entry {i}: size {} != {}", f.size(), sz)); }
+                if f.size() != sz || (method == 0 && f.compressed_size() != sz) { return Err(format!("entry {i}: size {} != {}", f.size(), sz)); }
                 if f.crc32() != crc_zeros(sz) { return Err(format!("entry {i}: crc differs")); }
                 let n = std::io::copy(&mut f, &mut std::io::sink()).map_err(|e| format!("entry {i} read: {}", ioerr_class(&e)))?;
                 if n != sz { return Err(format!("entry {i}: read {n} bytes")); }
@@ -189,7 +190,12 @@ impl Stream for Z64 {
         for dirs in [65534u64, 65535, 65536, 65537] {
             if tier == "thorough" || dirs == 65536 || dirs == 65535 { g.push("big.count", format!("z64.big sizes=- large=- dirs={dirs} comment=636f6d")); }
         }
+        // the 4 GiB guard of an entry not declared large, with a compressing method (the compressed stream stays
+        // tiny, so only the uncompressed byte counter can refuse): the last write crosses the limit, then finish
+        g.push("big.guard", format!("z64.big sizes={} large=0 dirs=0 comment=- method=93", 1u64 << 32));
         if tier == "thorough" {
+            g.push("big.guard", format!("z64.big sizes={} large=0 dirs=0 comment=- method=8", (1u64 << 32) + 5));
+            g.push("big.guard", format!("z64.big sizes={} large=1 dirs=0 comment=- method=93", (1u64 << 32) + 5));
             let t = 1u64 << 32;
             for &sz in &[t - 2, t - 1, t, t + 1, 5 * (1u64 << 30)] {
                 for lg in [0, 1] {
@@ -285,7 +291,7 @@ impl Stream for Z64 {
                 let parse_list = |s: &str| -> Vec<u64> { if s == "-" { vec![] } else { s.split(',').filter_map(|x| x.parse().ok()).collect() } };
                 let sizes = parse_list(a.get("sizes").map(|s| s.as_str()).unwrap_or("-"));
                 let large: Vec<bool> = parse_list(a.get("large").map(|s| s.as_str()).unwrap_or("-")).iter().map(|v| *v == 1).collect();
-                let res = big_scenario(&sizes, &large, n("dirs"), &get_hex(&a, "comment").unwrap_or_default());
+                let res = big_scenario(&sizes, &large, n("dirs"), &get_hex(&a, "comment").unwrap_or_default(), n("method") as u16);
                 if res.starts_with("FAIL") { f.push(OracleFailure { what: format!("sparse-sink scenario: {res}") }); }
             }
             _ => {}
